@@ -338,6 +338,9 @@ def _range_loops(v, bid, variant):
                 src = c[1][3][0]
                 if src[0] == "agg" and src[2].startswith("Range::"):
                     out.add((src[3][0], src[3][1]))
+                elif src[0] == "call" and src[2] == "std::iter::Iterator::enumerate" and len(src[3]) == 1:
+                    # `for (j, x) in xs.iter().enumerate()` ranges over 0..len(xs) (cbcore._project gives j and x their index-loop form)
+                    out.add((("const", "usize", "0_usize", 0), ("call", src[1], "<[T]>::len", (src[3][0],))))
     return out
 
 
@@ -864,8 +867,9 @@ def _escape_lemmas(ctx, v):
                     if not top_is_sink:
                         continue   # the sink inside a closure capture / aggregate: captured, not passed
                     cal = e.get("callee") or ""
-                    if e.kind in ("other", "hocall") and (cal.endswith("Arc::<T, A>::ptr_eq") or cal.endswith("::ptr_eq") or cal.endswith("Vec::<T, A>::push") or cal.endswith("::push")):
-                        continue
+                    if e.kind in ("other", "hocall") and (cal.endswith("Arc::<T, A>::ptr_eq") or cal.endswith("::ptr_eq") or cal.endswith("Vec::<T, A>::push") or cal.endswith("::push")
+                                                          or cal == "std::iter::once"):
+                        continue        # iter::once(sink) is the element appended to share's list (GRD-len's closure lemma says where it ends up)
                     if e.kind in ("other",) and cal.startswith("std::ops::Deref"):
                         continue
                     bad_sink.append("sink passed to %s at %s" % (cal or e.kind, e.loc))
@@ -1094,7 +1098,9 @@ def _take_completion(ctx, v, b, e):
             # (3) end := true before both sends, upstream Terminate before the sink's
             st = [i for i, x in ev_effects(p) if raises_flag(x) and fl and cell_key(x.cell) in fl]
             ups = [x for x in send_sig(v, b, "Data", p) if x[0] == "UPTB" and x[1] == "Terminate"]
-            if not st or not ups or not (st[0] < ups[0][4] < idx):
+            if not ups and st and st[0] < idx and tb_none_decided(v, p):
+                pass        # the talkback cell was seen empty: dead while Data is arriving (stored at the greeting, never cleared)
+            elif not st or not ups or not (st[0] < ups[0][4] < idx):
                 probs.append("order is not: end.store(true); upstream Terminate; sink Terminate")
             # (4) after the data send of the same delivery
             ds = [x for x in send_sig(v, b, "Data", p) if x[0] == "SINK" and x[1] == "Data"]
@@ -1213,6 +1219,46 @@ def _flatten_completion(ctx, v, b, tb):
     ok = not probs and kinds == {"complete", "wait"}
     ctx.ob("REL-xor", v.key(b, "Terminate", "REL-xor", "complete-iff-other-level-gone"), ok,
            "completes exactly when the other level's cell is None, otherwise clears its own cell" if ok else "; ".join(sorted(set(probs))[:3]) or str(kinds), v.loc(b))
+
+
+def _share_ended_upstream_not_disposed(ctx, v, d):
+    """share, C04 ('no upstream is terminated after it ended by itself'): the talkback disposes upstream when it finds the list
+    empty.  While the terminal fan-out runs, sinks that have not been served yet may still be disposed by their owners (legal:
+    they have not heard the end).  So the list must not be empty during the terminal fan-out - unless the talkback's upstream
+    Terminate is tied to having found and removed its own sink, or the upstream talkback cell is cleared before the fan-out."""
+    probs = []
+    n = 0
+    for h in v.by_role("UP"):
+        for var in ("Error", "Terminate"):
+            for p in returning(v.arm(h, var)):
+                effs = ev_effects(p)
+                fan = [i for i, e in effs if e.kind == "send" and v.cls_of(e)[0] in ("SINKLIST", "SINK")]
+                if not fan:
+                    continue
+                n += 1
+                listk = {cell_key(recv_load(e)[1]) for i, e in effs if e.kind == "send" and v.cls_of(e)[0] == "SINKLIST" and recv_load(e)}
+                clears = [i for i, e in effs if e.kind == "cell" and e.op in ("store", "swap") and cell_key(e.cell) in listk and i < fan[-1]]
+                if not clears:
+                    continue
+                tbk = set(v.talkback_cells())
+                tb_cleared = [i for i, e in effs if e.kind == "cell" and e.op in ("store", "swap") and base_key(e.cell) in tbk and i < fan[0]
+                              and e.value is not None and e.value[0] == "agg" and e.value[2] == "Option::None"]
+                if tb_cleared:
+                    continue
+                # is every upstream Terminate of the talkback guarded by `found`?
+                guarded = True
+                for dv in ("Error", "Terminate"):
+                    for dp in returning(v.arm(d, dv)):
+                        ups = [s for s in send_sig(v, d, dv, dp) if s[0] == "UPTB"]
+                        for s2 in ups:
+                            found = [a for (_, a, _) in guards_before(dp, s2[4]) if a[0] == "discr" and a[1][0] == "call" and a[1][2].endswith("::position") and a[2] == 1]
+                            if not found:
+                                guarded = False
+                if not guarded:
+                    probs.append("UP.%s empties the sink list before the terminal fan-out, and the talkback disposes upstream whenever it finds the list empty" % VSHORT[var])
+    ctx.ob("ORD-clear-emit", "share:UP.ET:ORD:list-not-empty-during-terminal-fanout", not probs and n >= 2,
+           "during the terminal fan-out the list still holds the sinks being served, so a talkback used meanwhile does not find it empty and does not dispose the ended upstream"
+           if not probs else "; ".join(sorted(set(probs))), v.loc(d))
 
 
 def _share_clear_after(ctx, v, b, var):
@@ -1422,9 +1468,15 @@ def _share_detach(ctx, v, d, var):
         sends = [(i, e) for i, e in effs if e.kind == "send"]
         pos = [a for (_, a, _) in guards_before(p, len(p.events)) if a[0] == "discr" and a[1][0] == "call" and a[1][2].endswith("::position")]
         if not pos:
-            probs.append("position of the sink not looked up")
-            continue
-        found = pos[0][2] == 1
+            # the lookup may live inside the rcu closure itself (find-and-remove on the copied list: _share_detach_closures checks it)
+            rc = [e for i, e in effs if e.kind == "cell" and e.op == "rcu" and e.closure and
+                  any(x.kind == "hocall" and x.callee.endswith("::position") for x in v.all_effects(e.closure))]
+            if len(rc) != 1:
+                probs.append("position of the sink not looked up")
+                continue
+            found = True
+        else:
+            found = pos[0][2] == 1
         if found and not rcu:
             probs.append("sink found but not removed")
         if sends and rcu and sends[0][0] < rcu[0]:
@@ -1645,6 +1697,7 @@ def C04(ctx, model, tier, models):
             if v.family == "share":
                 _share_detach(ctx, v, d, "Error")
                 _share_detach(ctx, v, d, "Terminate")
+                _share_ended_upstream_not_disposed(ctx, v, d)
                 continue
             passthrough = v.family != "flatten"
             lemma_down_relay(ctx, v, d, "Terminate", ("Terminate",), what="terminate-relayed")
@@ -2183,6 +2236,7 @@ def from_iter_lemmas(ctx, v):
     probs = []
     # ORD-bracket: first visible effect of every thunk path is in_loop.store(true); last is in_loop.store(false)
     bracket = None
+    claimed_by_thunk = False
     for p in complete(tp):
         vis = [(i, e) for i, e in ev_effects(p) if effect_visible(P, e) and not e.tracing and e.kind != "panic"]
         if not vis:
@@ -2193,7 +2247,18 @@ def from_iter_lemmas(ctx, v):
             probs.append("thunk does not start by raising the in-loop flag")
             continue
         bracket = cell_key(f.cell)
-        if p.end == "return" and not (l.kind == "atomic" and l.op == "store" and l.operand[3] == 0 and cell_key(l.cell) == bracket):
+        if f.op != "store" and bracket in flag_guard(p, len(p.events), True):
+            # test-and-set entry (`if in_loop.swap(true) { return }`): an activation that finds the loop running backs off; it must
+            # do nothing at all, and in particular not lower the flag it does not own
+            claimed_by_thunk = True
+            if len(vis) != 1 or p.end != "return":
+                probs.append("an activation that found the loop running does more than return")
+            continue
+        if f.op != "store":
+            claimed_by_thunk = True
+            if bracket not in flag_guard(p, len(p.events), False):
+                probs.append("the in-loop flag is raised by an RMW whose previous value is not tested")
+        if p.end == "return" and not (lowers_flag(l) and cell_key(l.cell) == bracket):
             probs.append("thunk does not end by lowering the in-loop flag")
         for i, e in ev_effects(p):
             if e.kind == "send" and not (vis[0][0] < i and (p.end != "return" or i < vis[-1][0])):
@@ -2214,7 +2279,7 @@ def from_iter_lemmas(ctx, v):
                 else:
                     pull_flag = cell_key(st[0][1].cell)
                 fl = flag_guard(p, i, False)
-                if bracket not in fl:
+                if bracket not in fl and not claimed_by_thunk:
                     probs.append("loop entered without testing the in-loop flag")
         # every returning Pull path records the pull (unless disposed)
         if p.end == "return":
@@ -2249,7 +2314,7 @@ def from_iter_lemmas(ctx, v):
             if completed_seen:
                 continue
             n_iter += 1
-            resets = [i for i, e in effs if e.kind == "atomic" and e.op == "store" and cell_key(e.cell) == pull_flag and e.operand[3] == 0]
+            resets = [i for i, e in effs if lowers_flag(e) and cell_key(e.cell) == pull_flag]
             if not resets or (nexts and resets[0] > nexts[0][0]):
                 probs.append("iteration does not consume the pull before advancing")
             if len(nexts) != 1:
@@ -2745,6 +2810,34 @@ def obs_of_counter(e):
     return out
 
 
+def counter_zero_decision(a):
+    """If the atom says `the value a counter has now is == 0` (or != 0), return (is_zero, observations).  The value "now" is the
+    result of a plain load, or the value an RMW left behind (previous value plus its unit step); the comparison may be spelled on
+    either: `fetch_sub(1) - 1 == 0`, `fetch_sub(1) == 1`, `load() == 0`, or a local bound to one of these per branch (phi)."""
+    if a[0] != "cmp" or a[3] not in ("==", "!=") or a[2] is not None or a[1] is None:
+        return None
+    alts = list(a[1][1]) if a[1][0] == "phi" else [a[1]]
+    obs = []
+    for alt in alts:
+        base, off = lin(alt)
+        ct = counter_term(base)
+        if ct is None:
+            return None
+        want = a[4] - off          # base == want
+        if ct[0] == "pre":
+            if ct[3] not in ("fetch_add", "fetch_sub") or ct[4] is None or ct[4][0] != "const" or ct[4][3] != 1:
+                return None
+            step = 1 if ct[3] == "fetch_add" else -1
+            if want + step != 0:
+                return None
+            obs.append(("post", ct[1], ct))
+        else:
+            if want != 0:
+                return None
+            obs.append(("cur", ct[1], ct))
+    return (a[3] == "==", obs)
+
+
 def member_index(v, h):
     """The tuple index of the source this member handler was subscribed to (combine): from the subscribe receiver."""
     for e, b in subscribe_sends(v):
@@ -2845,14 +2938,13 @@ def combine_lemmas(ctx, v):
             em = [s for s in sig if s[0] == "SINK"]
             dec = []
             for (i, a, ev) in guards_before(p, len(p.events)):
-                if a[0] == "cmp" and a[3] in ("==", "!=") and a[4] == 0 and a[2] is None and a[1] is not None:
-                    ob = obs_of_counter(a[1])
-                    if ob and all(o[0] in ("post", "cur") for o in ob):
-                        dec.append((i, a, ob))
+                czd = counter_zero_decision(a)
+                if czd is not None:
+                    dec.append((i, czd[0], czd[1]))
             if len(dec) != 1:
                 probs.append("emission is not decided by n_data == 0")
                 continue
-            zero = dec[0][1][3] == "=="
+            zero = dec[0][1]
             if zero:
                 if len(em) != 1 or em[0][1] != "Data":
                     probs.append("all members have a value but no tuple is emitted")
@@ -3016,6 +3108,11 @@ def flatten_lemmas(ctx, v, hygiene=True):
             probs.append("guarded")
     ctx.ob("REL-1:1", v.key(ui, "Data", "REL-1:1", "inner-relay-unconditional"), not probs,
            "inner data is relayed unconditionally: a disposed inner is silent by A3 only (no generation check in the code)", v.loc(ui))
+    # disposal with an active inner: the sink's Error / Terminate reaches both levels (otherwise the outer goes on producing inners,
+    # and the 'previous' inner is disposed a second time at the next switch)
+    d = v.by_role("DOWN")[0]
+    for var in ("Error", "Terminate"):
+        lemma_down_relay(ctx, v, d, var, ("Terminate",), what="disposal-reaches-both-levels")
     if hygiene:
         _cell_hygiene(ctx, v)
 
@@ -3060,10 +3157,12 @@ def share_lemmas(ctx, v):
         pushes = [e for e in v.all_effects(cl) if e.kind in ("other", "hocall") and e.callee.endswith("::push")] if cl else []
         rets = closure_returns(v, cl) if cl else []
         okc = len(pushes) == 1 and len(rets) == 1
-        if okc:
+        if cl and not pushes and len(rets) == 1 and _appended_item(rets[0][1], cl) == incoming_payload(r, "Handshake"):
+            okc = None      # `old.iter().cloned().chain(once(this sink)).collect()`: the same list with this sink appended
+        elif okc:
             vec, item = pushes[0].args[0], pushes[0].args[1]
             okc = (strip_clone(vec) == ("param", cl, 2) and vec != ("param", cl, 2) and item == incoming_payload(r, "Handshake") and rets[0][1] == vec)
-        if not okc:
+        if okc is not None and not okc:
             probs.append("the rcu closure is not `copy the list; push this sink; copy`")
         lens = [(i, a) for i, a, _ in guards_before(p, len(p.events)) if a[0] == "cmp" and a[1] is not None and a[1][0] == "call" and a[1][2].endswith("::len")]
         if not lens or lens[0][0] < rc[0][0] or not ((lens[0][1][3] in ("==", "!=") and lens[0][1][4] == 1) or (lens[0][1][3] in ("<", ">=") and lens[0][1][4] == 2)):
@@ -3115,20 +3214,64 @@ def share_lemmas(ctx, v):
     ctx.ob("SCP-sub", "share:SCP-sub:factory-cells", len(fact) == 2 and all(c.scope == "FACTORY" for c in v.op.cells.values()), "factory-scope cells: %s" % fact, v.loc(v.op.id))
 
 
+def _appended_item(e, cl):
+    """If e is `<the closure's list parameter, element-wise cloned>.chain(once(x))` (collected), return x."""
+    def peel(x):
+        # collect / iter / into_iter are folded as identities by the alias table; cloned / copied / clone keep the elements
+        while x is not None and x[0] == "call" and x[3] and (x[2].endswith(("::cloned", "::copied", "::collect", "::iter", "::into_iter", "::to_vec")) or x[2] == "Clone::clone" or x[2].endswith("Clone::clone")):
+            x = x[3][0]
+        return strip_refs(x)
+    x = peel(e)
+    if x is None or x[0] != "call" or not x[2].endswith("::chain") or len(x[3]) != 2:
+        return None
+    if peel(x[3][0]) != ("param", cl, 2):
+        return None
+    o = peel(x[3][1])
+    if o is None or o[0] != "call" or not o[2].endswith("iter::once") or len(o[3]) != 1:
+        return None
+    return strip_clone(o[3][0])
+
+
 def _share_detach_closures(ctx, v):
     """share DOWN.E|T: the position closure compares with this subscription's sink; the removal closure splices exactly i..i+1."""
     r = v.root
     d = v.by_role("DOWN")[0]
     probs = []
+    n_pos = 0
     for var in ("Error", "Terminate"):
         for p in v.arm(d, var, inline=0):
             for i, e in ev_effects(p):
                 if e.kind in ("hocall",) and e.callee.endswith("::position"):
+                    n_pos += 1
                     for c in e.closures:
                         eq = [x for x in v.all_effects(c) if x.kind in ("other",) and x.callee.endswith("ptr_eq")]
                         if not (len(eq) == 1 and any(a == incoming_payload(r, "Handshake") for a in eq[0].args) and any(a == ("param", c, 2) for a in eq[0].args)):
                             probs.append("position closure is not Arc::ptr_eq(element, this sink)")
                 if e.kind == "cell" and e.op == "rcu" and e.closure:
+                    inner_pos = [x for x in v.all_effects(e.closure) if x.kind == "hocall" and x.callee.endswith("::position")]
+                    if inner_pos:
+                        # find-and-remove inside the closure: position(ptr_eq(element, this sink)) on the copy; only on Some(i): remove(i)
+                        n_pos += 1
+                        if len(inner_pos) != 1:
+                            probs.append("removal closure looks the sink up more than once")
+                        for c in inner_pos[0].closures:
+                            eq = [x for x in v.all_effects(c) if x.kind in ("other",) and x.callee.endswith("ptr_eq")]
+                            if not (len(eq) == 1 and any(a == incoming_payload(r, "Handshake") for a in eq[0].args) and any(a == ("param", c, 2) for a in eq[0].args)):
+                                probs.append("position closure is not Arc::ptr_eq(element, this sink)")
+                        for cp in returning(v.arm(e.closure, None)):
+                            rm = [(i, x) for i, x in ev_effects(cp) if x.kind in ("other", "hocall") and
+                                  (x.callee.endswith("::splice") or x.callee.endswith("::drain") or x.callee.endswith("::retain") or x.callee.endswith("::swap_remove") or re.search(r"Vec::<[^>]*>::remove$", x.callee))]
+                            dec = [a for (_, a, _) in guards_before(cp, len(cp.events)) if a[0] == "discr" and a[1][0] == "call" and a[1][2].endswith("::position")]
+                            if not dec:
+                                probs.append("removal closure does not decide on the lookup")
+                            elif dec[0][2] == 1:
+                                okr = len(rm) == 1 and rm[0][1].callee.endswith("::remove") and not rm[0][1].callee.endswith("swap_remove") and len(rm[0][1].args) > 1 \
+                                    and strip_refs(rm[0][1].args[1]) == strip_refs(dec[0][1]) and strip_clone(strip_refs(rm[0][1].args[0])) == ("param", e.closure, 2)
+                                if not okr:
+                                    probs.append("removal closure does not remove exactly the found position from a copy of the list")
+                            elif rm:
+                                probs.append("removal closure removes something although the sink was not found")
+                        continue
                     sp = [x for x in v.all_effects(e.closure) if x.kind in ("other", "hocall") and
                           (x.callee.endswith("::splice") or x.callee.endswith("::drain") or re.search(r"Vec::<[^>]*>::remove$", x.callee))]
                     if len(sp) != 1:
@@ -3142,6 +3285,8 @@ def _share_detach_closures(ctx, v):
                         okr = rng[0] == "agg" and rng[2].startswith("Range::") and lin(rng[3][1]) == (rng[3][0], 1) and strip_clone(sp[0].args[0]) == ("param", e.closure, 2)
                         if not okr:
                             probs.append("removal closure does not remove exactly position i from a copy of the list")
+    if not n_pos:
+        probs.append("no lookup of this sink by Arc::ptr_eq")
     ctx.ob("REL-detach", v.key(d, None, "REL-detach", "closures"), not probs, "detach looks the sink up by Arc::ptr_eq and removes exactly that position from a copy of the list" if not probs else "; ".join(sorted(set(probs))), v.loc(d))
 
 
@@ -3450,7 +3595,7 @@ def discharge_panic(v, b, var, p, i, e, hint, tbcells):
             return ("K-value", okv, why)
         return ("K-unknown", False, "unwrap/expect of %s" % show(subj)[:60])
     if hint == "tuple-unwrap":
-        dec = [a for (_, a, _) in guards_before(p, i) if a[0] == "cmp" and a[3] == "==" and a[4] == 0 and a[2] is None and a[1] is not None and obs_of_counter(a[1])]
+        dec = [a for (_, a, _) in guards_before(p, i) if counter_zero_decision(a) is not None and counter_zero_decision(a)[0]]
         rc = [j for j, x in ev_effects(p) if j < i and x.kind == "cell" and x.op == "rcu"]
         rm = [j for j, x in ev_effects(p) if j < i and x.kind == "atomic" and x.op == "fetch_sub"]
         ok = bool(dec) and bool(rc) and (not rm or rc[0] < rm[0])
@@ -3852,6 +3997,10 @@ def cfg_census(ctx):
                 ok = True
             elif rel == "src/lib.rs" and pred == "doctest":
                 ok = True
+            elif feats and feats <= op_feats and rest == "" and not re.search(r"\bnot\b", pred):
+                # a positive combination of per-operator features (any / all) on an item shared by several operators: it can only
+                # remove the item where no operator uses it; no alternative code exists under its negation
+                ok = True
             if not ok:
                 bad.append("%s: cfg(%s)" % (rel, pred))
         for m in re.finditer(r"#\[cfg\(feature = \"tracing\"\)\]\s*\n?\s*([^\n]*)", txt2):
@@ -3882,6 +4031,15 @@ def cfg_gated_statements(ctx):
                 n += 1
                 s = stmt.strip()
                 ok = bool(re.match(r"^(use \{?[\w:, {}\n]*|let _?\w+ = [\w_]*span[\w_]*\.(enter|clone|entered)\(\);?|let \w*span\w* = (Span::current\(\)|[\w_]*span[\w_]*\.clone\(\));?|[A-Z]\w*: [\w:+ ']*fmt::Debug[\w:+ ']*,?|let nursery = nursery|\.clone\(\)|\.instrument\(.*)", s))
+                if not ok:
+                    # a `let x = ..` with a `#[cfg(not(feature = "tracing"))] let x = ..` twin next to it: both versions are in
+                    # the analysed MIR of their configuration and compared by EQV-cfg; nothing is hidden from it
+                    mlet = re.match(r"^let (mut )?(\w+)\b", s)
+                    if mlet:
+                        near = lines[max(0, i - 6):i] + lines[j + 1:j + 7]
+                        for q, ln2 in enumerate(near[:-1]):
+                            if re.match(r'\s*#\[cfg\(not\(feature = "tracing"\)\)\]\s*$', ln2) and re.match(r"\s*let (mut )?%s\b" % re.escape(mlet.group(2)), near[q + 1]):
+                                ok = True
                 if not ok:
                     bad.append("%s:%d: %s" % (os.path.relpath(f, repo), i + 2, s[:80]))
     ctx.ob("CEN-CFG", "cfg-gated-statements", not bad, "%d statements/parameters gated on the tracing feature, all span bookkeeping or Debug bounds" % n if not bad else
@@ -4201,10 +4359,9 @@ def _combine_nonh_guards(ctx, v):
                     if s[1] == "Data":
                         dec = []
                         for (i, a, ev) in guards_before(p, s[4]):
-                            if a[0] == "cmp" and a[3] == "==" and a[4] == 0 and a[2] is None and a[1] is not None:
-                                ob = obs_of_counter(a[1])
-                                if ob and all(o[0] in ("post", "cur") for o in ob):
-                                    dec.append(ob)
+                            czd = counter_zero_decision(a)
+                            if czd is not None and czd[0]:
+                                dec.append(czd[1])
                         if not dec:
                             probs.append("Data is sent without n_data == 0")
                         else:
